@@ -487,35 +487,126 @@ variable (order : List Nat → List Nat) (react : Nat → Nat → Nat → List C
 
 /-- **the shape of a delivery** on a sound cache, with the code as it is (D18, D23, D24 repaired): nothing raises.  Without
 updates nobody is called; with updates round 1 runs on the cache `ingestPre` left, the adds and removes on the cache round 1 left,
-round 2 on the result. -/
+round 2 on the result; each round is an `Ext`ension that calls exactly its snapshot. -/
 theorem deliverR_shape {c : Cache} (hs : Cache.Sound lower c) (ls : List Nat) (now : Ms) (recs : List Rec)
     (a : IngestAcc Cache) (ha : a = ingestPre lower (Cache.ops lower) c now recs) :
     (a.updates.isEmpty = true →
-      ∃ f, ingestFinish (Cache.ops lower) a.cache a = .ok f ∧
-        deliverR lower order react fuel c ls now recs
+      ∃ f, ingestFinish (Cache.ops lower) a.cache a = .ok f ∧ Cache.Sound lower f.1
+        ∧ (∀ q, f.1.getUnique lower q = finishAt lower a q (a.cache.getUnique lower q))
+        ∧ deliverR lower order react fuel c ls now recs
           = { pre := a, r1 := none, fin := some f, r2 := none, cache := f.1, listeners := ls, err := none })
     ∧ (a.updates.isEmpty = false →
       ∃ r1 f r2, r1 = roundR RmCfg.ok order (cbBody lower RmCfg.ok order react fuel) 0 1 { live := ls, cache := a.cache }
         ∧ ingestFinish (Cache.ops lower) r1.1.cache a = .ok f
         ∧ r2 = roundR RmCfg.ok order (cbBody lower RmCfg.ok order react fuel) 0 2 { live := r1.1.live, cache := f.1 }
         ∧ deliverR lower order react fuel c ls now recs
-          = { pre := a, r1 := some r1, fin := some f, r2 := some r2, cache := r2.1.cache, listeners := r2.1.live, err := none }) := by
+          = { pre := a, r1 := some r1, fin := some f, r2 := some r2, cache := r2.1.cache, listeners := r2.1.live, err := none }
+        ∧ Ext lower { live := ls, cache := a.cache } r1.1 ∧ r1.2.map Prod.fst = order ls
+        ∧ (∀ lc ∈ r1.2, SeenIn lower { live := ls, cache := a.cache } r1.1 lc.2)
+        ∧ Cache.Sound lower f.1 ∧ (∀ q, f.1.getUnique lower q = finishAt lower a q (r1.1.cache.getUnique lower q))
+        ∧ Ext lower { live := r1.1.live, cache := f.1 } r2.1 ∧ r2.2.map Prod.fst = order r1.1.live
+        ∧ (∀ lc ∈ r2.2, SeenIn lower { live := r1.1.live, cache := f.1 } r2.1 lc.2)) := by
   obtain ⟨hs1, hR, _, _⟩ := ingestPre_facts hs now recs
   rw [← ha] at hs1 hR
   constructor
   · intro he
-    obtain ⟨f, hf, _, _⟩ := ingestFinish_spec hs1 a hR
-    refine ⟨f, hf, ?_⟩
+    obtain ⟨f, hf, hsf, hq⟩ := ingestFinish_spec hs1 a hR
+    refine ⟨f, hf, hsf, hq, ?_⟩
     unfold deliverR deliverRWith
     simp only [← ha, he, if_true, RmCfg.code_eq, ingestFinishWith_ok, hf]
   · intro he
     have hb := cbBody_ok (lower := lower) order react fuel
-    have e1 := (roundR_spec (lower := lower) order hb 0 1 (st := { live := ls, cache := a.cache }) rfl hs1).1
-    obtain ⟨f, hf, hsf, _⟩ := ingestFinish_spec e1.sound a hR
-    have e2 := (roundR_spec (lower := lower) order hb 0 2 (st := { live := (roundR RmCfg.ok order (cbBody lower RmCfg.ok order react fuel) 0 1 { live := ls, cache := a.cache }).1.live, cache := f.1 }) rfl hsf).1
-    refine ⟨_, f, _, rfl, hf, rfl, ?_⟩
+    obtain ⟨e1, c1, s1⟩ := roundR_spec (lower := lower) order hb 0 1 (st := { live := ls, cache := a.cache }) rfl hs1
+    obtain ⟨f, hf, hsf, hq⟩ := ingestFinish_spec e1.sound a hR
+    obtain ⟨e2, c2, s2⟩ := roundR_spec (lower := lower) order hb 0 2
+      (st := { live := (roundR RmCfg.ok order (cbBody lower RmCfg.ok order react fuel) 0 1 { live := ls, cache := a.cache }).1.live, cache := f.1 }) rfl hsf
+    refine ⟨_, f, _, rfl, hf, rfl, ?_, e1, c1, s1, hsf, hq, e2, c2, s2⟩
     unfold deliverR deliverRWith
     simp only [← ha, he, Bool.false_eq_true, if_false, RmCfg.code_eq, ingestFinishWith_ok, e1.err, hf, e2.err]
+
+end
+
+
+/-! ### the post-state with re-entrant callbacks -/
+
+/-- the clock readings of the `async_add_listener(l, question)` calls made while round 1 / round 2 of the datagram ran -/
+def DeliveryR.reads1 (d : DeliveryR) : List Ms := (d.r1.map (fun r => r.1.reads)).getD []
+def DeliveryR.reads2 (d : DeliveryR) : List Ms := (d.r2.map (fun r => r.1.reads)).getD []
+
+theorem afterAdds_none (A1 A2 : List Rec) (q : Rec) (base : Option Rec) (h : ∀ r ∈ A1 ++ A2, r.ident lower ≠ q.ident lower) :
+    afterAdds lower A1 A2 q base = base := by
+  have h1 : A1.filter (fun r => decide (r.ident lower = q.ident lower)) = [] := by
+    rw [List.filter_eq_nil_iff]; intro r hr; simpa using h r (List.mem_append_left _ hr)
+  have h2 : A2.filter (fun r => decide (r.ident lower = q.ident lower)) = [] := by
+    rw [List.filter_eq_nil_iff]; intro r hr; simpa using h r (List.mem_append_right _ hr)
+  unfold afterAdds
+  rw [h1, h2]; rfl
+
+theorem Cache.Sound.getUnique_congr {c : Cache} (hs : Cache.Sound lower c) {q q' : Rec} (h : q.ident lower = q'.ident lower) :
+    c.getUnique lower q = c.getUnique lower q' := by
+  obtain ⟨s, hr, _⟩ := hs
+  rw [hr.getUnique q, hr.getUnique q', Flat.getUnique_congr s h]
+
+section
+variable (order : List Nat → List Nat) (react : Nat → Nat → Nat → List CbAct) (fuel : Nat)
+
+/-- **the post-state, whatever the callbacks do**: the delivery does not raise, leaves a sound cache, and identity by identity
+the cache holds what the datagram alone would have left (`ingest`, the subject of `C06_post_state` / `C06_flush_exact`) unless
+that record's TTL had fully elapsed at a clock reading of a callback that registered a listener with a question — a reading of
+either round for a record that was cached before the datagram, of the second round for a record the datagram added -/
+theorem deliverR_post {c : Cache} (hs : Cache.Sound lower c) (ls : List Nat) (now : Ms) (recs : List Rec) :
+    ∃ out, ingest lower (Cache.ops lower) c now recs = .ok out
+      ∧ (deliverR lower order react fuel c ls now recs).err = none
+      ∧ Cache.Sound lower (deliverR lower order react fuel c ls now recs).cache
+      ∧ ∀ q, (deliverR lower order react fuel c ls now recs).cache.getUnique lower q
+          = (out.cache.getUnique lower q).filter (aliveAt
+              (if (c.getUnique lower q).isSome then (deliverR lower order react fuel c ls now recs).reads1 ++ (deliverR lower order react fuel c ls now recs).reads2
+               else (deliverR lower order react fuel c ls now recs).reads2)) := by
+  obtain ⟨hs1, hR, hpres, hnew⟩ := ingestPre_facts hs now recs
+  obtain ⟨f0, hf0, hsf0, hq0⟩ := ingestFinish_spec hs1 _ hR
+  obtain ⟨m1, m2⟩ := deliverR_shape (lower := lower) order react fuel hs ls now recs _ rfl
+  refine ⟨_, by rw [ingest_eq_finish, hf0], ?_⟩
+  simp only []
+  generalize hA : ingestPre lower (Cache.ops lower) c now recs = a at *
+  cases he : a.updates.isEmpty with
+  | true =>
+    obtain ⟨f, hf, hsf, _, hd⟩ := m1 he
+    have hff : f = f0 := by rw [hf] at hf0; exact Except.ok.inj hf0
+    rw [hd]
+    refine ⟨rfl, hsf, fun q => ?_⟩
+    simp only [DeliveryR.reads1, DeliveryR.reads2, Option.map_none, Option.getD_none, List.append_nil, ite_self]
+    rw [hff, filter_alive_nil]
+  | false =>
+    obtain ⟨r1, f, r2, _, hf, _, hd, e1, _, _, hsf, hq, e2, _, _⟩ := m2 he
+    rw [hd]
+    refine ⟨rfl, e2.sound, fun q => ?_⟩
+    simp only [DeliveryR.reads1, DeliveryR.reads2, Option.map_some, Option.getD_some]
+    obtain ⟨ts1, hr1, hc1⟩ := e1.cache
+    obtain ⟨ts2, hr2, hc2⟩ := e2.cache
+    simp only [List.nil_append] at hr1 hr2
+    rw [hr1, hr2, hc2 q, hq q, hc1 q, hq0 q]
+    by_cases hcq : (c.getUnique lower q).isSome = true
+    · -- cached before: no record of its identity is added
+      have hno : ∀ r ∈ a.addrAdds ++ a.otherAdds, r.ident lower ≠ q.ident lower := by
+        intro r hr hid
+        have h1 := hnew r hr
+        rw [hs.getUnique_congr hid] at h1
+        rw [h1] at hcq; cases hcq
+      simp only [hcq, if_true]
+      unfold finishAt
+      rw [afterAdds_none _ _ _ _ hno, afterAdds_none _ _ _ _ hno]
+      split
+      · rfl
+      · rw [filter_alive_append]
+    · -- not cached before: the first round cannot have purged it
+      have hnone : a.cache.getUnique lower q = none := by
+        have := hpres q
+        cases hg : a.cache.getUnique lower q with
+        | none => rfl
+        | some e => rw [hg] at this; exact absurd this.symm hcq
+      simp only [hcq, Bool.false_eq_true, if_false]
+      rw [hnone]
+      rfl
 
 end
 
